@@ -1,18 +1,24 @@
 #!/bin/bash
 # Sensitivity self-test: every reverse patch of a fix must be caught by the listed checks.
 set -u
+# The repository the change is applied to and the checks run against: /repo, or a scratch copy named
+# by SIMPLC_REPO (e.g. the snapshot of `vp run --with-repo`), so that a long regression need not
+# occupy /repo.  The machinery is the tree this script lives in.
+HERE="$(cd "$(dirname "${BASH_SOURCE[0]}")/.." && pwd)"
+REPO="${SIMPLC_REPO:-/repo}"
+if [ "$REPO" != /repo ]; then export SIMPLC_REPO_WS="$REPO/compiler"; fi
 # evidence and replay files of runs against a deliberately broken tree go to a scratch directory
 export SIMPLC_OUT_DIR="${SIMPLC_OUT_DIR:-/tmp/simplc-sensitivity-out}"
 mkdir -p "$SIMPLC_OUT_DIR"
-cd /verif
+cd "$HERE"
 declare -A EXPECT=(
  [1ac9947]="C06 C03" [474d91c]="C06 C03" [b5b971c]="C12" [c217e1a]="C12" [201f5d4]="C12 C11"
  [3a03e34]="C11" [cbe05b4]="C06" [14b7e1d]="C06" [2fe554b]="C14" [ff78c38]="C15" [e11cc0a]="C15" [a7715b3]="C15" [f3e5ca9]="C15" [d78f1f5]="C15" [ddb7fb4]="C13"
 )
 fail=0
 for c in "${!EXPECT[@]}"; do
-  if ! git -C /repo diff --quiet; then echo "selftest: /repo dirty" >&2; exit 2; fi
-  git -C /repo apply /verif/mutants/revert-$c.diff || { echo "selftest: revert-$c does not apply"; fail=1; continue; }
+  if ! git -C "$REPO" diff --quiet; then echo "selftest: $REPO dirty" >&2; exit 2; fi
+  git -C "$REPO" apply "$HERE"/mutants/revert-$c.diff || { echo "selftest: revert-$c does not apply"; fail=1; continue; }
   for p in ${EXPECT[$c]}; do
     out=$(./check $p quick 2>&1); code=$?
     if [ $code = 1 ]; then
@@ -22,7 +28,7 @@ for c in "${!EXPECT[@]}"; do
       echo "MISSED: revert-$c by $p (exit $code)"; fail=1
     fi
   done
-  git -C /repo checkout -- .
+  git -C "$REPO" checkout -- .
 done
 rm -rf "$SIMPLC_OUT_DIR"
 exit $fail
